@@ -70,6 +70,8 @@ pub struct Mutant {
     /// If known by construction: the only definitions the fault may keep from being analysed.
     /// Every other definition of the named files must still be analysed.
     pub may_drop: Option<Vec<String>>,
+    /// Files in each of which an error-level diagnostic must be located.
+    pub must_locate: Vec<String>,
 }
 
 fn main_text(p: &Project) -> String {
@@ -88,7 +90,7 @@ pub fn mutants(base_name: &str) -> Vec<Mutant> {
     let toks = tokenize(&text);
     let mut out = Vec::new();
     let mut push = |kind: &str, position: usize, project: Project, must_error: bool| {
-        out.push(Mutant { base: base_name.to_string(), kind: kind.to_string(), position, project, must_error, must_mention: Vec::new(), may_drop: None });
+        out.push(Mutant { base: base_name.to_string(), kind: kind.to_string(), position, project, must_error, must_mention: Vec::new(), may_drop: None, must_locate: Vec::new() });
     };
     for (i, t) in toks.iter().enumerate() {
         let replace = |with: &str| format!("{}{}{}", &text[..t.range.start], with, &text[t.range.end..]);
@@ -157,6 +159,13 @@ pub fn mutants(base_name: &str) -> Vec<Mutant> {
     }
     push("duplicate-parameter", 2, with_main(&p, text.replacen("template Top(n)", "template Top(n, n)", 1)), true);
     let _ = tpl;
+    // Two named files that each end in an unclosed comment: one error per file.
+    {
+        let mut q = with_main(&p, format!("{text}/* never closed"));
+        q.files.push(("second.circom".into(), Some(b"pragma circom 2.1.4;\ntemplate Other() {\n    signal input in;\n}\n/* never closed either".to_vec())));
+        q.named.push("second.circom".into());
+        push("unclosed-comment-in-two-files", 0, q, true);
+    }
     // Several main components: a second named file with its own main.
     let mut q = p.clone();
     q.files.push(("second.circom".into(), Some(b"pragma circom 2.1.4;\ntemplate Other() {\n    signal input in;\n    signal output out;\n    out <== in;\n}\ncomponent main = Other();\n".to_vec())));
@@ -226,6 +235,9 @@ pub fn mutants(base_name: &str) -> Vec<Mutant> {
     let no_main = text.replacen("component main = Top(2);\n", "", 1);
     push("duplicate-definition-no-main", 0, with_main(&p, format!("{no_main}\ntemplate Top(m) {{\n    signal input in;\n    signal output out;\n    out <== in;\n}}\n")), true);
     for m in out.iter_mut() {
+        if m.kind == "unclosed-comment-in-two-files" {
+            m.must_locate = vec!["main.circom".into(), "second.circom".into()];
+        }
         m.may_drop = match m.kind.as_str() {
             "sugar-in-function" => Some(vec!["double".into()]),
             "malformed-sugar-in-template" => Some(vec!["Top".into()]),
@@ -366,6 +378,18 @@ pub fn judge(m: &Mutant, dir: &Path, case: &Value) -> Vec<Violation> {
                     observed: format!("{}\n{}", crate::infra::truncate(&run.stdout, 900), shown_source()),
                 });
                 break;
+            }
+        }
+        for file in &m.must_locate {
+            let located = run.diagnostics.iter().filter(|d| d.level() == "error").any(|d| d.location.as_ref().map(|(p, _, _)| p.ends_with(file.as_str())).unwrap_or(false));
+            if !located && *level == "info" {
+                out.push(Violation {
+                    signature: format!("error-not-located-in-every-file/{}", m.kind),
+                    what: format!("fault {}@{} in base {}: `{file}` cannot be read to its end but no error-level diagnostic is located in it", m.kind, m.position, m.base),
+                    case: c.clone(),
+                    expected: format!("an error located in {file}"),
+                    observed: crate::infra::truncate(&run.stdout, 700),
+                });
             }
         }
         if let Some(may_drop) = &m.may_drop {
